@@ -283,6 +283,13 @@ Theorem c01_cpu_tables_pinned : cpu_pins_ok = true /\
 Proof. exact (conj cpu_pins (conj cpu_of_arch_pinned (conj width_pinned gen_chunk_fills_array))). Qed.
 Print Assumptions c01_cpu_tables_pinned.
 
+(* allocation ledger of the lookup table behind the stack fallback (into_rangemap_safe's `Vec::with_capacity(input.len())` in
+   MinidumpMemoryList::read, 24-byte entries): at most 1.5 times the file, sized from the regions already read *)
+Theorem c01_lookup_table_alloc_backed : forall p file, wf_bytes file -> blen file < T62 ->
+  forall a, In a (table_ledger p file) -> 0 <= a /\ 2 * a <= 3 * blen file /\ a <= ALLOC_FILE_C * blen file.
+Proof. exact table_ledger_backed. Qed.
+Print Assumptions c01_lookup_table_alloc_backed.
+
 (* ---- round 5: the file layout the models read with — 35 record sizes, 76 field offsets/widths (nested location descriptors
    included), 5 array lengths — equals what Gen/Layouts.v says, which translate/format_layouts.py regenerates from the struct
    definitions of minidump-common/src/format.rs on every run; and every row of Model.ctx_table (CONTEXT_* size, offset and width
@@ -377,7 +384,7 @@ Definition c01_cover_index :=
    c01_memory_read_in_bounds, c01_linux_kv_bounded, c01_crashpad_info_total, c01_mac_crash_info_total, c01_fixed_streams_total,
    c01_print_sites_total, c01_crash_queries_total, c01_memory_range_sound, c01_last_error_in_bounds, c01_crash_address_total,
    c01_elf_debug_id_reads, c01_address_lookup_total, c01_get_thread_index_total, c01_lookups_total, c01_layout_pinned, c01_unloaded_lookup_in_range, c01_const_indices_in_bounds, c01_stack_source_total, c01_stack_fallback_sound,
-   c01_thread_print_words_total, c01_thread_stack_words_total, c01_cpu_tables_pinned).
+   c01_thread_print_words_total, c01_thread_stack_words_total, c01_cpu_tables_pinned, c01_lookup_table_alloc_backed).
 Example c01_nonvacuous_queries :
   memory_range Debug 18446744073709551599 16 = Ok (Some (18446744073709551599, 18446744073709551614)) /\
   memory_range Debug 18446744073709551600 16 = Ok None /\ memory_range Debug 5 0 = Ok None /\
@@ -417,11 +424,12 @@ Example c01_nonvacuous_stack_words :
   wf_bytes nv_mips_dump /\ blen nv_mips_dump < T62 /\
   run_stacks Debug nv_mips_dump = [(38, FOk [1; -2; 0]); (39, FErr EStreamNotFound)] /\
   run_prints Debug nv_mips_dump = [(40, FOk [16 * 5 + 4; 16 * 4 + 4])] /\
+  table_ledger Debug nv_mips_dump = [24] /\
   stack_words Debug 100 (print_width (Some 1)) 23 0 0 = Ok 5 /\
   print_width (Some 32769) = Bits32 /\ print_width (Some 32772) = Bits64 /\ print_width (Some 12345) = BitsUnknown /\
   thread_words Debug nv_mips_dump (print_width (Some 12345)) (Some 23) = Ok (16 * 2 + 8) /\
   stack_len LE [(4096, 16)] [] 1 = Pan PANIC_LOOKUP_INDEX /\
-  (* the constant-index table: 23 groups rest on it, 440 sites; a group with a variable index is not "fully constant" *)
+  (* the constant-index table: 23 groups rest on it, 444 sites; a group with a variable index is not "fully constant" *)
   Nat.ltb 20 const_index_rows = true /\ Nat.ltb 420 const_index_site_count = true /\
   nv_mips_group_constant = true /\ nv_exc_print_group_constant = false /\ nv_arm_index_16_rejected = true.
 Proof.
